@@ -121,8 +121,11 @@ def _post(cls_name):
         cl.append(("every field the loop reads is initialised before the thread starts", "PC",
                    z3.BoolVal(all(any(e.kind == "write" and e.meth == f and i < starts[0][0] for i, e in enumerate(st.trace))
                                   for f in ("_shutdown", ef, "_delegate"))), ["C11", "C12"]))
-        cl.append(("EXEC_TOTAL and EXEC_INPROGRESS are incremented exactly once per constructed executor", "PC",
-                   z3.BoolVal(len(tot) == 1 and tot[0].meth == "inc" and len(inp) == 1 and inp[0].meth == "inc"), ["C20"]))
+        from .base import label_key
+        key = label_key(engine, st, mtype, ctx["name"].t)
+        cl.append(("EXEC_TOTAL and EXEC_INPROGRESS are incremented exactly once per constructed executor, labelled (type=%r, executor=<its name>)" % mtype, "PC",
+                   z3.And(z3.BoolVal(len(tot) == 1 and tot[0].meth == "inc" and len(inp) == 1 and inp[0].meth == "inc"),
+                          tot[0].args[0] == key if tot else False, inp[0].args[0] == key if inp else False), ["C20"]))
         return cl
     return post
 
